@@ -3,7 +3,7 @@
     * holds, in the data cells (the reference placement order `QRRef.zigzag v` = the cells `ReadCodewords` visits),
       the modules of the reference symbol carrying a received codeword stream,
     * holds the format word with ≤ 3 flipped bits in EACH copy,
-    * holds (version ≥ 7) the version word with ≤ 3 flipped bits in the copy `ReadVersion` consults first
+    * holds (version ≥ 7) the version word with ≤ 3 flipped bits in AT LEAST ONE of the two copies
       (the other copy may hold anything),
     * and anything at all elsewhere (finder, timing, alignment patterns, dark module are never read),
   returns what the clean symbol returns.  Composition of `decodeFormat_near` / `versionCopyOK_near`
@@ -15,6 +15,75 @@ import Gzx.Proofs.QRCompTop
 namespace Gzx.QRComp
 open Gzx Gzx.QRDec Gzx.ECI
 
+/-! ### the second copy of the version information -/
+
+def coords2OK (v : Nat) : Bool :=
+  decide (v < 7) || versionCoords2 (17 + 4 * v) == (List.range 18).map (fun i => QRRef.versionPos1 (17 + 4 * v) (18 - 1 - i))
+
+theorem coords2OK_all : ∀ v ∈ List.range 40, coords2OK (v + 1) = true := by decide +kernel
+
+theorem versionCoords2_eq (v : Nat) (h7 : 7 ≤ v) (h40 : v ≤ 40) :
+    versionCoords2 (17 + 4 * v) = (List.range 18).map (fun i => QRRef.versionPos1 (17 + 4 * v) (18 - 1 - i)) := by
+  have := coords2OK_all (v - 1) (List.mem_range.mpr (by omega))
+  rw [show v - 1 + 1 = v by omega] at this
+  unfold coords2OK at this
+  simp only [Bool.or_eq_true, decide_eq_true_eq, beq_iff_eq] at this
+  exact this.resolve_left (by omega)
+
+theorem versionPos1_lt (n i : Nat) (hn : 21 ≤ n) (hi : i < 18) :
+    (QRRef.versionPos1 n i).1 < n ∧ (QRRef.versionPos1 n i).2 < n := by
+  unfold QRRef.versionPos1
+  constructor <;> simp <;> omega
+
+/-- the copy of the version information that `ReadVersion` reads second, on the reference symbol -/
+theorem version_cells2 (v : Nat) (h7 : 7 ≤ v) (h40 : v ≤ 40) (ec : QRRef.EC) (mask : Nat) (cw : List Nat) :
+    (versionCoords2 (17 + 4 * v)).map (cellOf (sym v ec mask cw) false) = natToBits 18 (QRRef.versionWord v) := by
+  rw [versionCoords2_eq v h7 h40, List.map_map, ← toBitsBE_eq_natToBits]
+  unfold QRRef.toBitsBE
+  apply List.map_congr_left
+  intro i hi
+  have hi := List.mem_range.mp hi
+  have hb := versionPos1_lt (17 + 4 * v) (18 - 1 - i) (by omega) (by omega)
+  simp only [Function.comp, cellOf, Bool.false_eq_true, if_false]
+  rw [matrixOf_getB v ec mask cw _ _ hb.1 hb.2]
+  exact (Gzx.Properties.C07.ref_version_info_readback v h7 h40 ec mask cw _ (by omega)).1
+
+/-- whatever a copy of the version information holds: if `ReadVersion` accepts it (it decodes to a version of the
+    symbol's dimension), the version is the right one -/
+theorem versionCopyOK_ref (T : Tables) (hT : TablesConform T) (v : Nat) (b : Nat) (v' : VersionInfo)
+    (h : versionCopyOK T (17 + 4 * v) b = some v') : v' = refVersion v := by
+  unfold versionCopyOK at h
+  cases hd : decodeVersionInformation T b with
+  | error e => rw [hd] at h; cases h
+  | ok w =>
+    rw [hd] at h
+    simp only at h
+    split at h
+    · rename_i hdim
+      have hw : w = v' := Option.some.inj h
+      subst hw
+      obtain ⟨n, hn⟩ : ∃ n, getVersionForNumber T.versions n = .ok w := by
+        unfold decodeVersionInformation at hd
+        split at hd
+        · exact ⟨_, hd⟩
+        · split at hd
+          · exact ⟨_, hd⟩
+          · cases hd
+      by_cases hr : 1 ≤ n ∧ n ≤ 40
+      · rw [getVersion_ref T hT n hr.1 hr.2] at hn
+        have hw : refVersion n = w := Except.ok.inj hn
+        subst hw
+        have : n = v := by
+          unfold VersionInfo.dimension refVersion at hdim
+          simp only at hdim
+          omega
+        rw [this]
+      · unfold getVersionForNumber at hn
+        have : n < 1 ∨ n > 40 := by omega
+        simp only [this, if_true] at hn
+        cases hn
+    · cases h
+
 /-- a matrix that is the reference symbol `(v, ec, mask, cw)` up to tolerable damage of the format / version
     information and arbitrary damage of the other function patterns -/
 structure Damaged (v : Nat) (ec : QRRef.EC) (mask : Nat) (cw : List Nat) (m : Matrix) : Prop where
@@ -24,8 +93,11 @@ structure Damaged (v : Nat) (ec : QRRef.EC) (mask : Nat) (cw : List Nat) (m : Ma
     formatCoords1.map (cellOf m false) = natToBits 15 (QRRef.formatWord ec mask ^^^ e)
   fmt2 : ∃ e, e < 2 ^ 15 ∧ popCount 64 e ≤ 3 ∧
     (formatCoords2 (17 + 4 * v)).map (cellOf m false) = natToBits 15 (QRRef.formatWord ec mask ^^^ e)
-  ver1 : 7 ≤ v → ∃ e, e < 2 ^ 18 ∧ popCount 64 e ≤ 3 ∧
-    (versionCoords1 (17 + 4 * v)).map (cellOf m false) = natToBits 18 (QRRef.versionWord v ^^^ e)
+  ver : 7 ≤ v →
+    (∃ e, e < 2 ^ 18 ∧ popCount 64 e ≤ 3 ∧
+      (versionCoords1 (17 + 4 * v)).map (cellOf m false) = natToBits 18 (QRRef.versionWord v ^^^ e)) ∨
+    (∃ e, e < 2 ^ 18 ∧ popCount 64 e ≤ 3 ∧
+      (versionCoords2 (17 + 4 * v)).map (cellOf m false) = natToBits 18 (QRRef.versionWord v ^^^ e))
 
 section reads
 variable (v : Nat) (h1 : 1 ≤ v) (h40 : v ≤ 40) (ec : QRRef.EC) (mask : Nat) (cw : List Nat) (m : Matrix)
@@ -43,7 +115,9 @@ theorem dparser1_mirror : (dparser1 v m).mirror = false := by unfold dparser1; s
 
 include h1 h40 hT hD
 
-/-- `ReadVersion` on the damaged symbol: the first copy, within three bits, decides -/
+/-- `ReadVersion` on the damaged symbol: a copy within three bits of the written word decides — the first one if it
+    is, otherwise whatever the first copy holds is either rejected (not a version word of this dimension within three
+    bits) or yields the same version, and the second copy decides -/
 theorem readVersion_damaged : readVersion T { m := m } = .ok (refVersion v, dparser1 v m) := by
   have hdim := hD.dim
   have hprov : (17 + 4 * v - 17) / 4 = v := by omega
@@ -52,7 +126,6 @@ theorem readVersion_damaged : readVersion T { m := m } = .ok (refVersion v, dpar
       (by simp only [hdim, hprov]; exact getVersion_ref T hT v h1 h40)
     rw [this]; unfold dparser1; rw [if_pos hs]
   · have h7 : 7 ≤ v := by omega
-    obtain ⟨e, he, hpe, hcells⟩ := hD.ver1 h7
     have hw : T.vdi[v - 7]? = some (QRRef.versionWord v) := by
       rw [hT.2.1]; unfold refVdi
       rw [List.getElem?_map, List.getElem?_range (by omega)]
@@ -63,12 +136,24 @@ theorem readVersion_damaged : readVersion T { m := m } = .ok (refVersion v, dpar
       rwa [show v - 7 + 7 = v by omega] at this
     have hgv : getVersionForNumber T.versions (v - 7 + 7) = .ok (refVersion v) := by
       rw [show v - 7 + 7 = v by omega]; exact getVersion_ref T hT v h1 h40
-    have hcopy := versionCopyOK_near T (by rw [hT.2.1]; exact refVdi_minDist) (v - 7) (QRRef.versionWord v) hw e
-      hpe (refVersion v) hgv (17 + 4 * v) rfl
-    have := readVersion_reads_first T { m := m } rfl (by simp only [hdim, hprov]; exact hs)
-      (QRRef.versionWord v ^^^ e) (Nat.xor_lt_two_pow hlt he) (by simp only [hdim]; exact hcells)
-      (refVersion v) (by simp only [hdim]; exact hcopy)
-    rw [this]; unfold dparser1; rw [if_neg hs]
+    have hnear : ∀ e, popCount 64 e ≤ 3 → versionCopyOK T (17 + 4 * v) (QRRef.versionWord v ^^^ e) = some (refVersion v) :=
+      fun e hpe => versionCopyOK_near T (by rw [hT.2.1]; exact refVdi_minDist) (v - 7) (QRRef.versionWord v) hw e
+        hpe (refVersion v) hgv (17 + 4 * v) rfl
+    rcases hD.ver h7 with ⟨e, he, hpe, hcells⟩ | ⟨e, he, hpe, hcells⟩
+    · have := readVersion_reads_first T { m := m } rfl (by simp only [hdim, hprov]; exact hs)
+        (QRRef.versionWord v ^^^ e) (Nat.xor_lt_two_pow hlt he) (by simp only [hdim]; exact hcells)
+        (refVersion v) (by simp only [hdim]; exact hnear e hpe)
+      rw [this]; unfold dparser1; rw [if_neg hs]
+    · have hbig : ¬ (17 + 4 * v - 17) / 4 ≤ 6 := by rw [hprov]; exact hs
+      unfold readVersion dparser1
+      simp only [hdim, hbig, hs, if_false, copyBits_read, bind, Except.bind]
+      cases h1c : versionCopyOK T (17 + 4 * v) (natOfBits ((versionCoords1 (17 + 4 * v)).map (cellOf m false))) with
+      | some v' =>
+        have := versionCopyOK_ref T hT v _ v' h1c
+        subst this
+        rfl
+      | none =>
+        simp only [hcells, natOfBits_natToBits 18 _ (Nat.xor_lt_two_pow hlt he), hnear e hpe]
 
 omit h1 h40 in
 /-- `ReadFormatInformation` on the damaged symbol: both copies within three bits of the written word -/
